@@ -251,6 +251,7 @@ def unicode_tables():
         fold = {int(k): v for k, v in d.get('unicase_fold', {}).items()}
         _UNI = {'upper': up, 'upper_r': ranges(up), 'lower': lower, 'fold': fold,
                 'ignorable': set(d.get('case_ignorable', [])), 'cased': set(d.get('cased_not_ignorable', []))}
+        _UNI['classes'] = {k: [(r[0], r[1], 1) for r in v] for k, v in d.get('classes', {}).items()}
         _UNI['ignorable_r'] = ranges(_UNI['ignorable'])
         _UNI['cased_r'] = ranges(_UNI['cased'])
         deltas, multi = {}, {}
@@ -984,7 +985,10 @@ def m_is_uppercase(I, c, r):
 
 @model('char::is_lowercase')
 def m_is_lowercase(I, c, r):
-    raise Unsupported('char::is_lowercase (no table)')
+    x = charval(r)
+    if isinstance(x, int) and x < 0x80:
+        return 0x61 <= x <= 0x7A
+    return unicode_class(I, x, 'is_lowercase')
 
 
 @model('char::to_lowercase')
@@ -2166,6 +2170,9 @@ def m_char_indices(I, c, s):
 def m_starts_with(I, c, s, p):
     b = sbytes(s)
     p = deref_all(p)
+    if isinstance(p, (Closure, FnItem, VecVal)):
+        b = list(b)
+        return len(b) > 0 and _pat_matcher(I, p)(b, 0) > 0
     if isinstance(p, int) or is_sym(p):
         return len(b) > 0 and beq(I, b[0], p) if isinstance(p, int) and p < 0x80 else _unsupported('starts_with non-ASCII char')
     pb = sbytes(p)
@@ -2176,6 +2183,14 @@ def m_starts_with(I, c, s, p):
 def m_ends_with(I, c, s, p):
     b = sbytes(s)
     p = deref_all(p)
+    if isinstance(p, (Closure, FnItem, VecVal)):
+        b = list(b)
+        if not b:
+            return False
+        i = len(b) - 1          # start of the last char
+        while i > 0 and not I.ctx.decide(b_not(rng(b[i], 0x80, 0xBF)) if not isinstance(b[i], int) else not (0x80 <= b[i] <= 0xBF)):
+            i -= 1
+        return _pat_matcher(I, p)(b, i) > 0
     if isinstance(p, int):
         _ascii_pat(p)
         return len(b) > 0 and beq(I, b[-1], p)
@@ -2544,7 +2559,25 @@ def m_char_unicode_class(I, c, r):
         ch = chr(x)
         return {'is_alphanumeric': ch.isalnum(), 'is_alphabetic': ch.isalpha(), 'is_numeric': ch.isdigit(),
                 'is_whitespace': ch in ' \t\n\r\x0b\x0c', 'is_control': x < 0x20 or x == 0x7F}[c.method]
-    raise Unsupported('char::%s on non-ASCII / symbolic char (no table)' % c.method)
+    return unicode_class(I, x, c.method)
+
+
+ASCII_CLASS = {'is_alphanumeric': [(0x30, 0x39), (0x41, 0x5A), (0x61, 0x7A)], 'is_alphabetic': [(0x41, 0x5A), (0x61, 0x7A)], 'is_numeric': [(0x30, 0x39)],
+               'is_whitespace': [(0x09, 0x0D), (0x20, 0x20)], 'is_control': [(0, 0x1F), (0x7F, 0x7F)], 'is_lowercase': [(0x61, 0x7A)]}
+
+
+def unicode_class(I, x, name):
+    """membership of a scalar value (concrete or symbolic) in a character class of the real std (table dumped at setup)"""
+    tab = unicode_tables()['classes'].get(name)
+    if tab is None:
+        raise Unsupported('char::%s: no table in unicode.json (re-run setup)' % name)
+    if isinstance(x, int):
+        return any(lo <= x <= hi for lo, hi in ASCII_CLASS[name]) or any(lo <= x <= hi for lo, hi, _ in tab)
+    x = zx(x)
+    bd = CHAR_BOUNDS.get(x.get_id())
+    if (bd is None or bd[1] < 0x80) and I.ctx.decide(z3.ULT(x, 0x80)):
+        return b_or(*[rng(x, lo, hi) for lo, hi in ASCII_CLASS[name]])
+    return in_ranges(x, tab)
 
 
 @model('char::len_utf8')
@@ -2668,6 +2701,17 @@ def m_iter_nth(I, c, a, n):
     v = STOP
     for _ in range(n + 1):
         v = it.next(I)
+        if v is STOP:
+            return NONE_()
+    return Some(v)
+
+
+@model('DoubleEndedIterator::nth_back')
+def m_iter_nth_back(I, c, a, n):
+    it = deref_all(a)
+    v = STOP
+    for _ in range(n + 1):
+        v = it.next_back(I)
         if v is STOP:
             return NONE_()
     return Some(v)
